@@ -16,7 +16,7 @@ from fractions import Fraction
 from vlib.core import ROOT, BUILD, NPROC
 from props import C03_lib as L
 
-UNITS = ['HP_intersectsScaled', 'PM_makePrecise']
+UNITS = ['HP_intersectsScaled', 'HP_intersectsPt', 'PM_makePrecise']
 OPS = {'INT': (1, 'GEOSIntersectionPrec_r'), 'UNI': (2, 'GEOSUnionPrec_r'), 'DIF': (3, 'GEOSDifferencePrec_r'), 'SYM': (4, 'GEOSSymDifferencePrec_r')}
 GC_EMPTY = ('GC', [])
 
@@ -125,8 +125,27 @@ def check_hot_pixel(ctx, r, rng, thorough):
         half.append((2 * cx, 2 * cy, p))
     hl_m = ['HPH %d %d %d %d %d %d' % ((hx, hy) + tuple(p)) for hx, hy, p in half]
     hl_i = ['HP %d %d %s' % (hx // 2, hy // 2, ' '.join('%.1f' % (v / 2.0) for v in p)) for hx, hy, p in half]
+    # HotPixel::intersects(p): every point of a 5x5-cell window in half units against the pixel at a few centres
+    pl_m, pl_i = [], []
+    for cx, cy in ((0, 0), (3, -2), (-7, 5)):
+        for x in range(2 * cx - 5, 2 * cx + 6):
+            for y in range(2 * cy - 5, 2 * cy + 6):
+                pl_m.append('HPP %d %d %d %d' % (2 * cx, 2 * cy, x, y)); pl_i.append('HPP %d %d %.1f %.1f' % (cx, cy, x / 2.0, y / 2.0))
+    pm_o = r.par([r.drv], pl_m); pi_o = r.par([r.hexe], pl_i)
+    npt_bad = 0
+    for ln, a, b in zip(pl_m, pm_o, pi_o):
+        ctx.count(('hpp', ln), True)
+        if not (len(a) == 2 and a[0] == a[1] == b):
+            npt_bad += 1
+            if npt_bad <= 2 and len(a) == 2 and a[1] != b:
+                ctx.violation('hotpixel_pt_%d' % npt_bad, dict(case=ln, implementation=b, half_open_square=a[1], generated_unit=a[0],
+                                                               expected='HotPixel::intersects(p) = p in [cx-1/2, cx+1/2) x [cy-1/2, cy+1/2)',
+                                                               replay='echo "%s" | %s' % (pl_i[pl_m.index(ln)], r.hexe)),
+                              msg='HotPixel::intersects(p) (%s, half units) = %s but the half-open pixel says %s' % (ln, b, a[1]))
+            elif not any(x['name'].startswith('HotPixel::intersects(p)') for x in ctx.broken):
+                ctx.broken.append(dict(kind='correspondence', name='HotPixel::intersects(p) ' + ln, detail='model %s implementation %s' % (a, b)))
     mo = r.par([r.drv], lines + hl_m); io = r.par([r.hexe], lines + hl_i)
-    nbad = 0; ntrue = 0
+    nbad = npt_bad; ntrue = 0
     for ln, a, b in zip(lines + hl_m, mo, io):
         ctx.count(('hp', ln), True)
         ntrue += b == '1'
@@ -142,7 +161,7 @@ def check_hot_pixel(ctx, r, rng, thorough):
                                   msg='HotPixel::intersects(%s) = %s but the exact class says %s' % (ln, b, a[2]))
                 elif not any(b['name'].startswith('HotPixel ') for b in ctx.broken):
                     ctx.broken.append(dict(kind='correspondence', name='HotPixel ' + ln, detail='model (generated, hand, exact) %s implementation %s' % (a, b)))
-    return len(lines) + len(half), nbad, ntrue
+    return len(lines) + len(half) + len(pl_m), nbad, ntrue
 
 
 # ------------------------------------------------------------------ 3. the operations
@@ -286,6 +305,34 @@ def gen_cases(rng, n_pairs, n_setp):
         for fl in (0, 2):
             cases.append(Case('SETP', g, ('MPG', [PA[1], PB[1]]) if vy < ve else ('GC', [PA, PB]), flags=fl, family='near-axis', label=lab))
         cases.append(Case('SETP', g, ('GC', [PA, ('LS', PB[1][0][:3])]), flags=0, family='near-axis', label=lab))
+    # a vertex EXACTLY half a cell from a pixel centre (an odd multiple of g/2 in one ordinate; all four sides by symmetry), the
+    # pixel next to it hot with a vertex of the other operand, and a segment from that vertex through that pixel
+    for i in range(max(6, n_pairs // 4)):
+        g = float(rng.choice([1, 1, 2, 10, 0.5, 0.25, 4, 100]))
+        a1 = rng.choice([0.49, 0.3, 0.1, -0.2, 0.45]); u = rng.choice([1.0, 0.8, 0.6])
+        half = rng.choice([0.5, 0.5, 0.5, 1.5])                       # the exact half-cell ordinate (1.5: two rows up)
+        A = [(5, -1), (5, 3 + half), (a1, 3 + half), (a1, half), (a1 - u * (half + 1) / 1.5, -1), (5, -1)]
+        by = rng.choice([0.0, 0.2, -0.3, 0.4]) + (half - 0.5)
+        xa = a1 - u * (half + 1) / 1.5 * (half - by) / (half + 1)     # A's slanted edge at height by
+        bx = xa - rng.choice([0.1, 0.3, 0.39, 0.6])
+        B = [(-4, by + 0.6), (-4, by - 0.6), (bx, by), (-4, by + 0.6)]
+        kx, ky = rng.randint(-3, 3), rng.randint(-3, 3)
+        tf = rng.choice(['id', 'flipy', 'swap', 'swapflip', 'flipx'])
+        def T(p, tf=tf, kx=kx, ky=ky, g=g):
+            x, y = p
+            if tf == 'flipy': y = -y
+            elif tf == 'flipx': x = -x
+            elif tf == 'swap': x, y = y, x
+            elif tf == 'swapflip': x, y = -y, x
+            return ((x + kx) * g, (y + ky) * g)
+        PA, PB = ('PG', [[T(p) for p in A]]), ('PG', [[T(p) for p in B]])
+        lab = 'half-cell/' + tf
+        for k in OPS:
+            cases.append(Case(k, g, PA, PB, family='half-cell', label=lab))
+        cases.append(Case('UNI', g, PB, PA, family='half-cell', label=lab + '/swap'))
+        cases.append(Case('UUP', g, ('GC', [PA, PB]), family='half-cell', label=lab))
+        cases.append(Case('SETP', g, ('GC', [PA, PB]), flags=0, family='half-cell', label=lab))
+        cases.append(Case('SETP', g, ('MPG', [PA[1], PB[1]]), flags=0, family='half-cell', label=lab))
     for i in range(n_setp):
         full = rng.random() < 0.4
         A = L.gen_geom(rng, None, rng.choice([4, 8, 12]))
@@ -717,6 +764,8 @@ def run(ctx):
             ctx.broken.append(dict(kind='generator', name='distribution', detail='no evaluated call ' + k))
     if nk == 0:
         ctx.broken.append(dict(kind='generator', name='distribution', detail='no KEEP_COLLAPSED case with a fully collapsed element'))
+    if d['family'].get('half-cell', 0) == 0:
+        ctx.broken.append(dict(kind='generator', name='distribution', detail='no evaluated case of the half-cell family'))
     if d['family'].get('near-axis', 0) == 0:
         ctx.broken.append(dict(kind='generator', name='distribution', detail='no evaluated case of the near-axis-edge family'))
     if d['family'].get('tiny', 0) == 0:
